@@ -4,14 +4,14 @@ open HailVerif HailVerif.DriverUtil HailVerif.Retry
 
 /-- exception syntax: `N` = None, `[f0,…,f17|OS|CAUSE]` with integer fields in the order of `Desc`
 (aiohttp status or -1, httpx status or -1, bodyRateLimit, bodyRetryOnce, gcpQuota, serverTimeout, serverDisconnected, timeoutError,
-connector, payloadNotCompleted, sslBadRecordMac, isOSError, errnoPresent, errno, gaierror, transientError, connReset, connRefused) -/
+connector, payloadNotCompleted, sslBadRecordMac, isOSError, errnoPresent, errno, gaierror, transientError, connReset, connRefused, numeric Retry-After header in seconds or -1) -/
 partial def parseExc : List Char → Option (Exc × List Char)
   | 'N' :: r => some (.nil, r)
   | '[' :: r =>
     let fieldChars := r.takeWhile (· ≠ '|')
     let r1 := (r.dropWhile (· ≠ '|')).drop 1
     match ints? ((String.ofList fieldChars).splitOn ","), parseExc r1 with
-    | some [a, h, rl, ro, g, st, sd, to, c, p, ssl, isos, ep, en, gai, tr, cr, cf], some (os, r2) =>
+    | some [a, h, rl, ro, g, st, sd, to, c, p, ssl, isos, ep, en, gai, tr, cr, cf, ra], some (os, r2) =>
       match r2 with
       | '|' :: r3 =>
         match parseExc r3 with
@@ -24,7 +24,8 @@ partial def parseExc : List Char → Option (Exc × List Char)
             serverDisconnected := b sd, timeoutError := b to, connector := b c, payloadNotCompleted := b p,
             sslBadRecordMac := b ssl
             osErrno := if b isos then some (if b ep then some en else none) else none
-            gaierror := b gai, transientError := b tr, connReset := b cr, connRefused := b cf }
+            gaierror := b gai, transientError := b tr, connReset := b cr, connRefused := b cf
+            retryAfter := if ra < 0 then none else some ra.toNat }
           some (.mk d os cause, r4)
         | _ => none
       | _ => none
